@@ -647,7 +647,12 @@ class FuncEmitter:
         op = ins.op
         m = self.mod
         if ins.flags & FMF:
-            raise Unsupported('fast-math flags: ' + ins.src)
+            # nsz on llvm.minnum/maxnum (clang's lowering of std::fmin/fmax): only frees the sign of a zero result;
+            # modelled by the fmin/fmax model (one of the permitted results).  Everything else: outside the table.
+            if not (ins.flags & FMF == {'nsz'} and op == 'call' and ins.ops[0][0] == 'global' and
+                    ins.ops[0][1].startswith(('llvm.minnum.', 'llvm.maxnum.'))):
+                raise Unsupported('fast-math flags: ' + ins.src)
+            self.ctx.trusted.add('nsz on llvm.minnum/maxnum modelled as fmin/fmax (sign of a zero result is one permitted choice)')
         if op in BIN_OPS:
             n, et = self.lanes(ins.ty)
             a = self.val(ins.ops[0], ins.ty)
@@ -1008,10 +1013,10 @@ class FuncEmitter:
     def emit_intrinsic(self, ins, name, args):
         m = self.mod
         base = name
-        A = [self.val(v, t) for (t, v, a) in args]
         if name.startswith(('llvm.lifetime.', 'llvm.dbg.', 'llvm.experimental.noalias', 'llvm.invariant.',
                             'llvm.donothing', 'llvm.prefetch')):
-            return
+            return   # no-ops; their arguments may be metadata, which has no C value
+        A = [self.val(v, t) for (t, v, a) in args]
         if name == 'llvm.assume':
             self.out.append('LL2C_CHECK(%s, "llvm.assume");' % A[0])
             return
